@@ -867,6 +867,16 @@ func streamCont(o *Out, r *rand.Rand, n int, thorough bool) {
 		{"t = make([]string, 1)\nt[0] = \"a\"\nv, ok = t[0]\nt[0] = \"z\"\nv", "string:" + hexOf("a")},
 		{"x = make(S)\nx.C = [1, 2]\nv, ok = x.C[0]\nx.C[0] = 9\n[v, ok]", "[]iface[int64:1 bool:true]"},
 		{"m = {}\nv, ok = m[\"missing\"]\nw, ok2 = m[\"other\"]\nv = 5\n[w, ok, ok2]", "[]iface[nil bool:false bool:false]"},
+		// map keys are the values as written: 2 and 2.0 are two keys (as in a Go map[interface{}]interface{}), whatever operation uses them
+		{"m = {}\nm[2] = \"i\"\nm[2.0] = \"f\"\n[len(m), m[2], m[2.0]]", "[]iface[int64:2 string:" + hexOf("i") + " string:" + hexOf("f") + "]"},
+		{"m = {2.0: \"x\"}\n[m[2.0], m[2], m[4 / 2]]", "[]iface[string:" + hexOf("x") + " nil string:" + hexOf("x") + "]"},
+		{"m = {}\nk = 6 / 3\nm[k] = 1\ndelete(m, k)\nlen(m)", "int64:0"},
+		{"m = {}\nm[4 / 2] = 1\nr = []\nfor k, v in m {\nr += k\n}\nr", "[]iface[float64:2]"},
+		{"m = {2: \"i\"}\nv, ok = m[2.0]\n[v, ok]", "[]iface[nil bool:false]"},
+		// an unknown member is an error - also one that differs from a field only in the case of its first letter
+		{"x = make(S)\nx.a", "ERROR"}, {"x = make(S)\nx.a = 7", "ERROR"}, {"x = make(S)\nx.c", "ERROR"}, {"x = make(S)\nx.d = {}", "ERROR"},
+		{"x = make(struct { A int64, Total string })\nr = \"stored\"\ntry {\nx.total += \"x\"\n} catch e {\nr = \"failed\"\n}\n[r, x.Total]", "[]iface[string:" + hexOf("failed") + " string:]"},
+		{"x = make(struct { A int64 })\nr = \"stored\"\ntry {\nx.a++\n} catch e {\nr = \"failed\"\n}\n[r, x.A]", "[]iface[string:" + hexOf("failed") + " int64:0]"},
 		{"x = make(S)\ny = x\ny.A = 4\n[x.A, y.A]", "SKIP"},
 		{"x = make(S)\nx.Nope = 1", "ERROR"}, {"x = make(S)\nx.Nope", "ERROR"}, {"x = make(S)\nx.A = 3\nx.A", "int64:3"},
 		{"x = make(S)\nx.C = [1, 2]\nx.C[1]", "int64:2"}, {"x = make(S)\nx.D = {\"a\": 1}\nx.D.a", "int64:1"}, {"x = make(S)\nx.G = [1]\nx.G", "[]iface[int64:1]"},
